@@ -1,6 +1,6 @@
 (* C18 property theorems: statements only, each closed by [exact]. *)
 From Boltons Require Import Lib.Prelude Spec.C18_Spec Model.C18_Model
-  Proofs.C18_Bytes Proofs.C18_Mfr.
+  Proofs.C18_Bytes Proofs.C18_Mfr Proofs.C18_Utf8 Proofs.C18_StringRun.
 Open Scope N_scope.
 
 (* SpooledBytesIO: for EVERY max_size and every history of the listed calls
@@ -40,3 +40,66 @@ Example C18_mfr_inhabited :
               [MRead (Some 3%nat); MRead None; MSeek0; MRead (Some 1%nat); MRead (Some 9%nat); MRead (Some 2%nat)] = Some r
             /\ length r = 6%nat.
 Proof. eexists. vm_compute. split; reflexivity. Qed.
+
+(* SpooledStringIO.  FULL STATEMENT (does not hold, see C18_string_lines_refuted):
+     forall max chunk ops r, 1 <= chunk -> Forall op_valid ops ->
+       ref_run KString rf_empty ops = Some r -> ss_run (ss_init max chunk) ops = r.
+   PROVED: the same under the guard of the open finding C18-line-boundaries -
+   no written character is a line break other than "\n" (\r \v \f \x1c-\x1e
+   \x85 U+2028 U+2029), or the history has no readline/readlines/next/list/
+   iteration call.  For every max_size, every READ_CHUNK_SIZE >= 1 and every
+   history of appending writes (characters < 0x200000, which covers all of
+   Unicode), read(n)/read(), readline, readlines, next, list, iteration, seeks
+   inside the data, tell, getvalue and len, the values returned and tell() after
+   every call are those of the reference text file io.StringIO, positions
+   counting code points - the UTF-8 stream, the StreamReader's byte/character/
+   line buffers and its look-ahead, the rollover and the re-reading seek are all
+   inside the model. *)
+Theorem C18_string_partial : forall (max chunk : nat) (ops : list fop) (r : list step_obs),
+  (1 <= chunk)%nat -> Forall op_valid ops ->
+  writes_odd_break ops = false \/ existsb is_line_op ops = false ->
+  ref_run KString rf_empty ops = Some r -> ss_run (ss_init max chunk) ops = r.
+Proof. exact string_refines_reference. Qed.
+Print Assumptions C18_string_partial.
+
+Theorem C18_string_max_independent_partial :
+  forall (max1 max2 chunk1 chunk2 : nat) (ops : list fop) (r : list step_obs),
+  (1 <= chunk1)%nat -> (1 <= chunk2)%nat -> Forall op_valid ops ->
+  writes_odd_break ops = false \/ existsb is_line_op ops = false ->
+  ref_run KString rf_empty ops = Some r ->
+  ss_run (ss_init max1 chunk1) ops = ss_run (ss_init max2 chunk2) ops.
+Proof. exact string_max_independent. Qed.
+Print Assumptions C18_string_max_independent_partial.
+
+(* multi-byte characters of every UTF-8 length, a rollover in the middle
+   (max_size 9), a read that leaves a character in the reader's look-ahead
+   followed by len, line calls: the hypotheses are met *)
+Definition c18_text_example : list fop :=
+  [Write [97;98;8212;99;10;100]; Seek 0 0; Read (Some 3%nat); Len; Read None;
+   Write [233;128512;10;2048]; Seek 2 0; ReadLine None; Next; ListAll; Seek 0 2; Seek 1 0; IterAll;
+   Seek 3 0; ReadLines 0; GetValue].
+
+Example C18_string_inhabited :
+  Forall op_valid c18_text_example /\ writes_odd_break c18_text_example = false /\
+  exists r, ref_run KString rf_empty c18_text_example = Some r /\ length r = 16%nat
+            /\ ss_run (ss_init 9 3) c18_text_example = r.
+Proof.
+  split; [|split; [reflexivity|]].
+  - repeat constructor; unfold uvalid; lia.
+  - eexists. vm_compute. repeat split; reflexivity.
+Qed.
+
+(* outside the guard the statement fails: 'a\rb\n', seek(0), readline() gives
+   'a\r' where the reference gives 'a\rb\n' (Appendix B #34; the witness of the
+   open finding, corpus/C18/b34_line_boundaries.json) *)
+Theorem C18_string_lines_refuted :
+  exists (max chunk : nat) (ops : list fop) (r : list step_obs),
+    (1 <= chunk)%nat /\ Forall op_valid ops /\
+    ref_run KString rf_empty ops = Some r /\ ss_run (ss_init max chunk) ops <> r.
+Proof.
+  exists 100%nat, 3%nat, [Write [97;13;98;10]; Seek 0 0; ReadLine None], 
+         [(ONone, 4%nat); (ONat 0, 0%nat); (OData [97;13;98;10], 4%nat)].
+  split; [lia|]. split; [repeat constructor; unfold uvalid; lia|].
+  split; [reflexivity|]. vm_compute. discriminate.
+Qed.
+Print Assumptions C18_string_lines_refuted.
